@@ -25,11 +25,11 @@ Fixpoint all_ok (rs : list sres) : option (option (list value)) :=   (* None = f
   end.
 
 Definition wrap_coll (k : ckind) (vs : list value) : value :=
-  match k with
-  | KList => VList vs
+  match norm_kind k with
   | KSet => VSet (fold_left set_add vs [])
   | KFrozenSet => VFrozenSet (fold_left set_add vs [])
   | KVarTuple => VTuple vs
+  | _ => VList vs
   end.
 
 Definition any_cons (acc : option constraints) (d : pyval) : list constr :=
@@ -174,7 +174,7 @@ Fixpoint hashable_ty (t : ty) : bool :=
 
 Fixpoint wf_ty (t : ty) : bool :=
   match t with
-  | TColl k t' => wf_ty t' && match k with KSet | KFrozenSet => hashable_ty t' | _ => true end
+  | TColl k t' => wf_ty t' && match norm_kind k with KSet | KFrozenSet => hashable_ty t' | _ => true end
   | TTuple ts => forallb wf_ty ts
   | TMap kt vt => wf_ty kt && wf_ty vt && (hashable_ty kt || match kt with TAny => true | _ => false end)
   | TCon _ t' => wf_ty t'
